@@ -285,8 +285,9 @@ def items(tier, seed):
                 top_open={'k': ['nest'], 'critical': [True]},
                 nest_open=dict(chain, timeout=[0, 1, 2]), bound=2, kind='mon')
     yield from spaces.mk(['nest22'], k=2, **rich)
-    yield from spaces.mk(['nest23'] + (['nest33'] if th else []),
-                         k=2 if th else 1, **rich)
+    yield from spaces.mk(['nest23'], k=2 if th else 1, **rich)
+    if th:
+        yield from spaces.mk(['nest33'], k=1, **rich)
     # a contained (non-critical) raise and a critical raise inside the
     # nested scheduler, every critical combination along the chain
     yield from spaces.mk(
@@ -324,8 +325,9 @@ def items(tier, seed):
     fl2 = dict(fl, force='product',
                fargs={'parts': [('mods', {'alts': [allcrit]}),
                                 ('mods', {'alts': STAGGER})]})
-    yield from spaces.mk(['nest23', 'nest32'] + (['nest33'] if th else []),
-                         k=2 if th else 1, **fl2)
+    yield from spaces.mk(['nest23', 'nest32'], k=2 if th else 1, **fl2)
+    if th:
+        yield from spaces.mk(['nest33'], k=1, **fl2)
     yield from spaces.mk(['deep3'], force='mods', fargs={'alts': [allcrit]},
                          job_open={'dur': [0, 2], 'out': ['raise'],
                                    'critical': [True]},
